@@ -37,7 +37,7 @@ func runC04(p *load.Program, r *core.Report) {
 		return
 	}
 	c04Existence(a, r)
-	releaseRules(a, r, "C04.L2 drain-on-disappearance", 9)
+	releaseRules(a, r, "C04.L2 drain-on-disappearance", 10)
 	c04MetaAndSpawnDrain(a, r)
 	// the drain at termination walks the process's alias list: its maintenance is part of L2
 	swapDeleteRules(a, r, "C04.L2c identity-list-maintenance")
@@ -231,7 +231,7 @@ func c04Existence(a *Anchors, r *core.Report) {
 // is followed by the matching drain (or is the meta hand-over: exit pushed to the meta process).
 func c04MetaAndSpawnDrain(a *Anchors, r *core.Report) {
 	rule := "C04.L2b every-identity-removal-is-drained"
-	r.Floor(rule, 10)
+	r.Floor(rule, 14)
 	drainOf := map[string]string{"names": "RouteTerminateProcessID", "aliases": "RouteTerminateAlias", "events": "RouteTerminateEvent", "processes": "RouteTerminatePID"}
 	seq := map[string]int{}
 	for _, f := range funcsOfPkgs(a.P, "node") {
